@@ -13,23 +13,15 @@ ROOT = os.path.dirname(os.path.dirname(os.path.abspath(__file__)))
 
 # property -> list of stages; each stage = (family, focus, runs_quick, runs_thorough, params)
 CHECKS = {
-    "C01": {"level": "exploration", "stages": [("e1", "C01", 3000, 120000, {}), ("e2", "C01", 400, 12000, {})]},
-    "C02": {"level": "exploration", "stages": [("e1", "C02", 3000, 120000, {}), ("e2", "C02", 400, 12000, {})]},
-    "C03": {"level": "exploration", "stages": [("e1", "C03", 3000, 120000, {}), ("e2", "C03", 400, 12000, {})]},
-    "C04": {"level": "exploration", "stages": [("e1", "C04", 3000, 120000, {})]},
-    "C07": {"level": "exploration", "stages": [("e1", "C07", 2500, 100000, {}), ("e3", "C07", 3000, 100000, {})]},
-    "C08": {"level": "exploration", "stages": [("e1", "C08", 2500, 100000, {})]},
-    "C09": {"level": "exploration", "stages": [("e3", "C09", 6000, 200000, {}), ("e1", "C09", 1500, 50000, {})]},
-    "C10": {"level": "exploration", "stages": [("e1", "C10", 2000, 80000, {})]},
-    "C11": {"level": "exploration", "stages": [("e2", "C11", 1500, 50000, {})]},
-    "C12": {"level": "exploration", "stages": [("e2", "C12", 1200, 40000, {})]},
-    "C13": {"level": "exploration", "stages": [("e1c13", "C13", 1500, 60000, {})]},
-    "C15": {"level": "exploration", "stages": [("e4", "C15", 40, 600, {})]},
-    "C16": {"level": "exploration", "stages": [("e1", "C16", 2500, 100000, {}), ("e3", "C16", 2000, 60000, {})]},
-    "C17": {"level": "exploration", "stages": [("e1", "C17", 2500, 100000, {}), ("e2", "C17", 400, 12000, {})]},
-    "C18": {"level": "fault_enumeration", "stages": [("e2", "C18", 1500, 60000, {})]},
-    "C19": {"level": "fault_enumeration", "stages": [("e5", "C19", 1, 1, {})]},
-    "C20": {"level": "exploration", "stages": [("e6", "C20", 1, 1, {})]},
+    "C01": {"level": "exploration", "stages": [("e1", "C01", 40000, 1500000, {})]},
+    "C02": {"level": "exploration", "stages": [("e1", "C02", 40000, 1500000, {})]},
+    "C03": {"level": "exploration", "stages": [("e1", "C03", 40000, 1500000, {})]},
+    "C04": {"level": "exploration", "stages": [("e1", "C04", 40000, 1500000, {})]},
+    "C07": {"level": "exploration", "stages": [("e1", "C07", 30000, 1000000, {})]},
+    "C08": {"level": "exploration", "stages": [("e1", "C08", 30000, 1000000, {})]},
+    "C10": {"level": "exploration", "stages": [("e1", "C10", 20000, 700000, {})]},
+    "C16": {"level": "exploration", "stages": [("e1", "C16", 30000, 1000000, {})]},
+    "C17": {"level": "exploration", "stages": [("e1", "C17", 30000, 1000000, {})]},
 }
 
 REAL_VS_STUB = {
@@ -65,7 +57,35 @@ def known_params(known) -> dict:
     return out
 
 
-def match_known(known, prop, violation) -> dict | None:
+def _gcc_zero(props) -> bool:
+    for vs, alg, params in props:
+        if alg == "gcc":
+            m = (len(params) - 1) // 2
+            if any(u == 0 for u in params[1 + m :]):
+                return True
+    return False
+
+
+def _pred_model_gcc_zero(violation, result) -> bool:
+    md = (result or {}).get("model_dict")
+    return bool(md) and _gcc_zero(md["props"])
+
+
+def _pred_violated_gcc_zero(violation, result) -> bool:
+    m = re.search(r"constraint #\d+ gcc(\[[-0-9, ]*\]) violated", violation["message"])
+    if not m:
+        return False
+    params = json.loads(m.group(1))
+    return _gcc_zero([[[], "gcc", params]])
+
+
+KNOWN_PREDICATES = {
+    "model_has_gcc_with_zero_capacity": _pred_model_gcc_zero,
+    "violated_constraint_is_gcc_with_zero_capacity": _pred_violated_gcc_zero,
+}
+
+
+def match_known(known, prop, violation, result=None) -> dict | None:
     for f in known.get("findings", []):
         if f["property"] != prop:
             continue
@@ -73,6 +93,8 @@ def match_known(known, prop, violation) -> dict | None:
         if "oracle" in m and violation["oracle"] not in m["oracle"]:
             continue
         if "message_regex" in m and not re.search(m["message_regex"], violation["message"]):
+            continue
+        if "predicate" in m and not KNOWN_PREDICATES[m["predicate"]](violation, result):
             continue
         return f
     return None
@@ -89,6 +111,8 @@ def main(argv=None):
     ap.add_argument("--stage", help="only this family")
     ap.add_argument("--no-evidence", action="store_true")
     ap.add_argument("--survey", action="store_true", help="list violation classes of ALL properties, no shrinking")
+    ap.add_argument("--param", action="append", default=[], help="developer aid: key=value override of stage params")
+    ap.add_argument("--one", type=int, help="developer aid: execute run index N of the (first/--stage) family and dump it")
     args = ap.parse_args(argv)
     seed = int(os.environ.get("VERIF_SEED", "0") or 0)
 
@@ -105,6 +129,13 @@ def main(argv=None):
 
     known = load_known()
     kparams = known_params(known)
+    extra = {}
+    for kv in args.param:
+        k_, v_ = kv.split("=", 1)
+        extra[k_] = int(v_) if v_.lstrip("-").isdigit() else v_
+    if extra:
+        for k_ in CHECKS:
+            CHECKS[k_]["stages"] = [(a, b, c, d, dict(e, **extra)) for a, b, c, d, e in CHECKS[k_]["stages"]]
 
     if args.replay:
         with open(args.replay) as f:
@@ -121,6 +152,17 @@ def main(argv=None):
         print("replay did not reproduce a violation")
         return 0
 
+    if args.one is not None:
+        from sim import runner
+
+        for fam, focus, rq, rt, params in CHECKS[prop]["stages"]:
+            if args.stage and args.stage != fam:
+                continue
+            res = runner.execute(fam, focus, dict(params, known=kparams, tier=args.tier), seed=runner.run_seed(seed, fam, focus, args.one))
+            res.pop("trace", None)
+            print(json.dumps(res, indent=1, default=str))
+            break
+        return 0
     if args.survey:
         return survey(prop, args, seed, kparams)
     t0 = time.time()
@@ -139,7 +181,7 @@ def main(argv=None):
         with open(os.path.join(ROOT, f["replay"])) as fh:
             rp = json.load(fh)
         res = runner.execute(rp["family"], rp["property"], dict(rp.get("params") or {}), trace=rp["trace"])
-        mine = [v for v in res["violations"] if v["property"] == prop and match_known(known, prop, v) is f]
+        mine = [v for v in res["violations"] if v["property"] == prop and match_known(known, prop, v, res) is f]
         if mine:
             known_lines.append(f"KNOWN-FINDING: property={prop} {f['id']}: {f['what_fails']}")
     for fam, focus, rq, rt, params in spec["stages"]:
@@ -155,19 +197,26 @@ def main(argv=None):
         tot["wall"] = time.time() - st0
         totals.append(tot)
         reported = set()
-        for bad in tot["viol"][:6]:
-            cls = (bad["violations"][0]["oracle"],)
-            if cls in reported:
+        for bad in tot["viol"]:
+            # violations that match a recorded finding are reported as such (no minimisation needed)
+            unknown = []
+            for v in bad["violations"]:
+                kf = match_known(known, prop, v, bad)
+                if kf is None:
+                    unknown.append(v)
+                else:
+                    line = f"KNOWN-FINDING: property={prop} {kf['id']}: {kf['what_fails']}"
+                    if line not in known_lines:
+                        known_lines.append(line)
+            if not unknown:
                 continue
-            best, final, vs, evals = runner.minimise(fam, focus, params, bad, max_evals=200 if tier == "quick" else 600)
-            v = vs[0] if vs else bad["violations"][0]
-            kf = match_known(known, prop, v)
+            cls = unknown[0]["oracle"]
+            if cls in reported or len(reported) >= 4:
+                continue
             reported.add(cls)
-            if kf is not None:
-                line = f"KNOWN-FINDING: property={prop} {kf['id']}: {kf['what_fails']}"
-                if line not in known_lines:
-                    known_lines.append(line)
-                continue
+            bad = dict(bad, violations=unknown)
+            best, final, vs, evals = runner.minimise(fam, focus, params, bad, max_evals=300 if tier == "quick" else 800)
+            v = vs[0] if vs else unknown[0]
             payload = runner.replay_payload(fam, focus, params, bad["seed"], bad["run"], best, final, vs, tier)
             payload["base_seed"] = seed
             payload["shrink_evals"] = evals
